@@ -41,7 +41,13 @@ IsSeed == "seed" \in DOMAIN cs
 \* same: the base in another file carries the same service name as the service extending it
 Universe(a, alts, place, d, same) ==
   [n \in 1..d |-> [file |-> place[n], name |-> (IF same /\ n = 2 /\ place[2] # place[1] THEN Names[1] ELSE Names[n]), ext |-> (IF n < d THEN n + 1 ELSE 0),
+                   isnull |-> FALSE,
                    local |-> (IF n = d /\ a.k # "image" THEN Put(LocalOf(a, alts[n]), "image", S("base")) ELSE LocalOf(a, alts[n]))]]
+\* the last base is declared without any content (`name:` and nothing else) in a file other than the main one: extending it gives the
+\* extending service's own attributes
+NullBaseUniverse(a, alts, place, d) ==
+  [n \in 1..d |-> [file |-> place[n], name |-> Names[n], ext |-> (IF n < d THEN n + 1 ELSE 0), isnull |-> n = d,
+                   local |-> (IF n = d THEN EmptyM ELSE IF n = d - 1 /\ a.k # "image" THEN Put(LocalOf(a, alts[n]), "image", S("base")) ELSE LocalOf(a, alts[n]))]]
 Next == /\ IsSeed
         /\ LET a == Attrs[cs.seed] IN
            \E d \in 2..Depth : \E place \in Placements : \E alts \in [1..d -> a.alts \cup {Absent}] : \E same \in BOOLEAN :
@@ -64,11 +70,22 @@ ForkNext ==
   /\ IsSeed /\ cs.seed <= Len(ForkAttrs)
   /\ LET a == ForkAttrs[cs.seed] IN
      \E alts \in [1..4 -> a.alts \cup {Absent}] :
-        LET U == [n \in 1..4 |-> [file |-> 1, name |-> ForkNames[n], ext |-> (CASE n = 1 -> 2 [] n = 2 -> 3 [] n = 3 -> 0 [] n = 4 -> 2),
+        LET U == [n \in 1..4 |-> [file |-> 1, name |-> ForkNames[n], ext |-> (CASE n = 1 -> 2 [] n = 2 -> 3 [] n = 3 -> 0 [] n = 4 -> 2), isnull |-> FALSE,
                                    local |-> (IF n = 3 THEN Put(LocalOf(a, alts[n]), "image", S("base")) ELSE LocalOf(a, alts[n]))]]
             r == [n \in 1..4 |-> Resolve(U, Dirs, n, {})] IN
         /\ alts[1] # Absent /\ alts[4] # Absent /\ alts[1] # alts[4]
         /\ cs' = [kind |-> "fork", attr |-> a.n, depth |-> 4, place |-> <<1, 1, 1, 1>>, nodes |-> U, target |-> r]
-Spec == Init /\ [][Next \/ ForkNext]_cs
+NullBaseNext ==
+  /\ IsSeed
+  /\ LET a == Attrs[cs.seed] IN
+     \E d \in 2..Depth : \E place \in Placements : \E alts \in [1..d -> a.alts \cup {Absent}] :
+        LET U == NullBaseUniverse(a, alts, place, d)
+            r == [n \in {m \in 1..d : place[m] = 1} |-> Resolve(U, Dirs, n, {})] IN
+        /\ place[d] # 1 /\ alts[d] = Absent /\ \E n \in 1..(d - 1) : alts[n] # Absent
+        /\ (a.n = "env_file" => \A i, j \in 1..d : (i # j /\ alts[i] # Absent) => alts[i] # alts[j])
+        /\ \A n \in 1..d : ~HasTag(alts[n], "reset")
+        /\ (a.k = "image" => alts[d - 1] # Absent)
+        /\ cs' = [kind |-> "chain-null-base", attr |-> a.n, depth |-> d, place |-> SubSeq(place, 1, d), nodes |-> U, target |-> r]
+Spec == Init /\ [][Next \/ ForkNext \/ NullBaseNext]_cs
 ChainLaws == IsSeed \/ \A n \in DOMAIN cs.target : ~IsErrV(cs.target[n])
 =============================================================================
